@@ -3,7 +3,7 @@
   This file: vocabulary, the decision table (`precheck`), the documented requirements (`compatible`), the
   unenforced requirements (`lax`) and the evaluation of the whole finite table in the kernel.  The
   property theorems are at the end of `MeddlyModel/Ops/Errors.lean`, which imports this file; the split
-  only keeps the ≈ 45 000-row kernel evaluation (minutes of CPU, once) out of the edit-compile cycle of
+  only keeps the ≈ 67 600-row kernel evaluation (minutes of CPU, once) out of the edit-compile cycle of
   everything else.
 
   `precheck` is transcribed from `/repo/src/operations/*.cc` in the ORDER in which the code performs its
@@ -22,8 +22,6 @@ inductive ErrCode where
   | DOMAIN_MISMATCH | TYPE_MISMATCH | NOT_IMPLEMENTED | INVALID_OPERATION | FOREST_MISMATCH
   | VALUE_OVERFLOW | DIVIDE_BY_ZERO | SUBTRACT_INFINITY | INFINITY_DIV_INFINITY | INVALID_ITERATOR
   | INVALID_VARIABLE | INVALID_ASSIGNMENT | INVALID_ARGUMENT | INVALID_LEVEL
-  /-- not an error code: the constructor dereferences a null pointer (undefined behaviour; observed SIGSEGV) -/
-  | CRASH
   deriving DecidableEq, Repr, Inhabited
 
 def ErrCode.name : ErrCode → String
@@ -34,7 +32,6 @@ def ErrCode.name : ErrCode → String
   | .INFINITY_DIV_INFINITY => "INFINITY_DIV_INFINITY" | .INVALID_ITERATOR => "INVALID_ITERATOR"
   | .INVALID_VARIABLE => "INVALID_VARIABLE" | .INVALID_ASSIGNMENT => "INVALID_ASSIGNMENT"
   | .INVALID_ARGUMENT => "INVALID_ARGUMENT" | .INVALID_LEVEL => "INVALID_LEVEL"
-  | .CRASH => "CRASH"
 
 inductive Range where | bool | int | real
   deriving DecidableEq, Repr, Inhabited
@@ -69,6 +66,29 @@ structure AKind where
   deriving DecidableEq, Repr, Inhabited
 
 def ForestKind.abs (k : ForestKind) : AKind := ⟨k.rel, k.range, k.lab, k.rule == .fully⟩
+
+/-- How the forests of a call are spread over domains, as far as any constructor can tell: all in one
+    domain; only the FIRST operand elsewhere (second operand and result share a domain); any other split.
+    Only the traditional reachability factories distinguish the last two (they build the image operation
+    over (result, relation, result) before the first operand is looked at). -/
+inductive Doms where | same | firstOnly | split
+  deriving DecidableEq, Repr, Inhabited
+
+/-- all forests of the call share one `domain` object -/
+def Doms.allSame : Doms → Bool
+  | .same => true
+  | _ => false
+
+/-- the second operand and the result share one `domain` object -/
+def Doms.bcSame : Doms → Bool
+  | .split => false
+  | _ => true
+
+def Doms.ofTok : String → Option Doms
+  | "1" => some .same
+  | "a" => some .firstOnly
+  | "0" => some .split
+  | _ => none
 
 def AKind.legal (k : AKind) : Bool :=
   match k.lab with
@@ -124,10 +144,6 @@ def OpKind.forests : OpKind → Nat
   | .COPY | .COMPLEMENT | .CONVERT_TO_INDEX_SET | .DIST_INC | .CYCLE => 2
   | .CARDINALITY_INT | .CARDINALITY_REAL | .MAX_RANGE_INT | .MAX_RANGE_REAL | .MIN_RANGE_INT | .MIN_RANGE_REAL => 1
   | _ => 3
-
-def OpKind.isNoFS : OpKind → Bool
-  | .REACHABLE_TRAD_NOFS_FWD | .REACHABLE_TRAD_NOFS_BWD => true
-  | _ => false
 
 def OpKind.isReach : OpKind → Bool
   | .REACHABLE_SATUR_FWD | .REACHABLE_SATUR_BWD | .REACHABLE_TRAD_FS_FWD | .REACHABLE_TRAD_FS_BWD
@@ -241,23 +257,27 @@ def preVecMat (vec mat c : AKind) (sd : Bool) : Option ErrCode :=
   | .bool => some .TYPE_MISMATCH
   | _ => prePrepostCtor vec mat c sd
 
-/-- REACHABLE_TRAD_FS factory (reach_trad.cc) -/
-def preTradFS (a b c : AKind) (sd : Bool) : Option ErrCode :=
-  if a.lab == .mt && c.range == .bool then (buildImage a b c sd).toPre else some .NOT_IMPLEMENTED
+/-- `reachset_frontier` / `reachset_no_frontier` (reach_trad.cc, since the repair of finding F2): the factory
+    builds the image operation over (result, relation, result) — the loops apply it to edges of the result
+    forest — then the accumulate / difference operations over the result forest (they cannot fail once the
+    image operation exists), then the constructor repeats the image constructor's tests with the FIRST
+    operand and builds COPY(first operand, result) (which cannot fail after these tests).
+    `sbc`: second operand and result share a domain; `sd`: all three do. -/
+def viaImage (a b c : AKind) (sd sbc : Bool) : Option ErrCode :=
+  firstOf [(buildImage c b c sbc).toPre, prePrepostCtor a b c sd]
 
-/-- REACHABLE_TRAD_NOFS factory: builds the image operation, then the accumulate operation, then hands both
-    to the `reachset_no_frontier` constructor, which dereferences the image operation unconditionally -/
-def preTradNoFS (a b c : AKind) (sd : Bool) : Option ErrCode :=
-  let viaImage : Option ErrCode :=
-    match buildImage a b c sd with
-    | .ok => none
-    | .threw e => some e
-    | .null => some .CRASH
+/-- REACHABLE_TRAD_FS factory (reach_trad.cc) -/
+def preTradFS (a b c : AKind) (sd sbc : Bool) : Option ErrCode :=
+  if a.lab == .mt && c.range == .bool then viaImage a b c sd sbc else some .NOT_IMPLEMENTED
+
+/-- REACHABLE_TRAD_NOFS factory: dispatch on the RESULT forest; a null image or accumulate operation makes
+    the factory return null (since the repair of finding F1; it used to be dereferenced) -/
+def preTradNoFS (a b c : AKind) (sd sbc : Bool) : Option ErrCode :=
   match c.lab with
   | .mt => (match c.range with
-            | .bool | .int => viaImage
+            | .bool | .int => viaImage a b c sd sbc
             | .real => some .NOT_IMPLEMENTED)
-  | .evp => if c.range == .int then viaImage else some .NOT_IMPLEMENTED
+  | .evp => if c.range == .int then viaImage a b c sd sbc else some .NOT_IMPLEMENTED
   | _ => some .NOT_IMPLEMENTED
 
 /-- COPY factory and the four copy constructors (copy.cc): the set/relation test of the factory precedes
@@ -265,48 +285,48 @@ def preTradNoFS (a b c : AKind) (sd : Bool) : Option ErrCode :=
 def preCopy (a c : AKind) (sd : Bool) : Option ErrCode :=
   firstOf [failIf (a.rel != c.rel) .TYPE_MISMATCH, chkDomains sd]
 
-def precheckA : OpKind → AKind → AKind → AKind → Bool → Option ErrCode
-  | .UNION, a, b, c, sd | .INTERSECTION, a, b, c, sd | .DIFFERENCE, a, b, c, sd => preSetOp a b c sd
-  | .CROSS, a, b, c, sd =>
+def precheckA (op : OpKind) (a b c : AKind) (dp : Doms) : Option ErrCode :=
+  let sd := dp.allSame
+  match op with
+  | .UNION | .INTERSECTION | .DIFFERENCE => preSetOp a b c sd
+  | .CROSS =>
     firstOf [chkDomains sd, chkRanges a b c .bool, chkLabs a b c .mt .mt .mt, chkRels a b c false false true]
-  | .PLUS, a, b, c, sd | .MINUS, a, b, c, sd | .MULTIPLY, a, b, c, sd | .DIVIDE, a, b, c, sd
-  | .MAXIMUM, a, b, c, sd | .MINIMUM, a, b, c, sd => preArith a b c sd
-  | .MODULO, a, b, c, sd => preModulo a b c sd
-  | .DIST_MIN, a, b, c, sd => preDistMin a b c sd
-  | .EQUAL, a, b, c, sd | .NOT_EQUAL, a, b, c, sd | .LESS_THAN, a, b, c, sd | .LESS_THAN_EQUAL, a, b, c, sd
-  | .GREATER_THAN, a, b, c, sd | .GREATER_THAN_EQUAL, a, b, c, sd => preCompare a b c sd
-  | .PRE_IMAGE, a, b, c, sd | .POST_IMAGE, a, b, c, sd
-  | .REACHABLE_SATUR_FWD, a, b, c, sd | .REACHABLE_SATUR_BWD, a, b, c, sd => (buildImage a b c sd).toPre
-  | .VM_MULTIPLY, a, b, c, sd => preVecMat a b c sd
-  | .MV_MULTIPLY, a, b, c, sd => preVecMat b a c sd
-  | .REACHABLE_TRAD_FS_FWD, a, b, c, sd | .REACHABLE_TRAD_FS_BWD, a, b, c, sd => preTradFS a b c sd
-  | .REACHABLE_TRAD_NOFS_FWD, a, b, c, sd | .REACHABLE_TRAD_NOFS_BWD, a, b, c, sd => preTradNoFS a b c sd
-  | .COPY, a, _, c, sd => preCopy a c sd
-  | .COMPLEMENT, a, _, c, sd =>
+  | .PLUS | .MINUS | .MULTIPLY | .DIVIDE | .MAXIMUM | .MINIMUM => preArith a b c sd
+  | .MODULO => preModulo a b c sd
+  | .DIST_MIN => preDistMin a b c sd
+  | .EQUAL | .NOT_EQUAL | .LESS_THAN | .LESS_THAN_EQUAL | .GREATER_THAN | .GREATER_THAN_EQUAL =>
+    preCompare a b c sd
+  | .PRE_IMAGE | .POST_IMAGE | .REACHABLE_SATUR_FWD | .REACHABLE_SATUR_BWD => (buildImage a b c sd).toPre
+  | .VM_MULTIPLY => preVecMat a b c sd
+  | .MV_MULTIPLY => preVecMat b a c sd
+  | .REACHABLE_TRAD_FS_FWD | .REACHABLE_TRAD_FS_BWD => preTradFS a b c sd dp.bcSame
+  | .REACHABLE_TRAD_NOFS_FWD | .REACHABLE_TRAD_NOFS_BWD => preTradNoFS a b c sd dp.bcSame
+  | .COPY => preCopy a c sd
+  | .COMPLEMENT =>
     firstOf [chkDomains sd, failIf (a.rel != c.rel) .TYPE_MISMATCH,
              failIf (a.range != .bool || c.range != .bool) .TYPE_MISMATCH,
              failIf (a.lab != .mt || c.lab != .mt) .TYPE_MISMATCH]
-  | .CONVERT_TO_INDEX_SET, a, _, c, sd =>
+  | .CONVERT_TO_INDEX_SET =>
     firstOf [chkDomains sd, failIf (a.rel || c.rel) .TYPE_MISMATCH,
              failIf (a.range != .bool || c.range != .int) .TYPE_MISMATCH,
              failIf (a.lab != .mt || c.lab != .idx) .TYPE_MISMATCH]
-  | .DIST_INC, a, _, c, sd =>
+  | .DIST_INC =>
     firstOf [chkDomains sd, failIf (a.rel != c.rel) .TYPE_MISMATCH,
              failIf (a.range != .int || c.range != .int) .TYPE_MISMATCH,
              failIf (a.lab != .mt || c.lab != .mt) .TYPE_MISMATCH]
-  | .CYCLE, a, _, c, sd =>
+  | .CYCLE =>
     if a.lab == .evp then
       firstOf [chkDomains sd, failIf (c.lab != .evp) .TYPE_MISMATCH, failIf (!a.rel || c.rel) .TYPE_MISMATCH]
     else some .NOT_IMPLEMENTED
-  | .CARDINALITY_INT, _, _, _, _ | .CARDINALITY_REAL, _, _, _, _ => none
-  | .MAX_RANGE_INT, a, _, _, _ | .MIN_RANGE_INT, a, _, _, _ =>
+  | .CARDINALITY_INT | .CARDINALITY_REAL => none
+  | .MAX_RANGE_INT | .MIN_RANGE_INT =>
     if a.lab != .mt then some .NOT_IMPLEMENTED else failIf (a.range != .int) .TYPE_MISMATCH
-  | .MAX_RANGE_REAL, a, _, _, _ | .MIN_RANGE_REAL, a, _, _, _ =>
+  | .MAX_RANGE_REAL | .MIN_RANGE_REAL =>
     if a.lab != .mt then some .NOT_IMPLEMENTED else failIf (a.range != .real) .TYPE_MISMATCH
 
-/-- The decision table on forest kinds.  `sameDom`: all forests involved share one `domain` object. -/
-def precheck (op : OpKind) (ka kb kc : ForestKind) (sameDom : Bool) : Option ErrCode :=
-  precheckA op ka.abs kb.abs kc.abs sameDom
+/-- The decision table on forest kinds.  `dp`: how the forests involved are spread over `domain` objects. -/
+def precheck (op : OpKind) (ka kb kc : ForestKind) (dp : Doms) : Option ErrCode :=
+  precheckA op ka.abs kb.abs kc.abs dp
 
 /-! ## Part 1b: the documented requirements, declaratively -/
 
@@ -399,8 +419,8 @@ instance (op : OpKind) (ka kb kc : ForestKind) (sd : Bool) : Decidable (compatib
 
 `laxA` describes, declaratively and operation by operation, the calls that violate a documented
 requirement and are nevertheless ACCEPTED by the constructors (no error is raised).  `lax_exact` shows
-that this description is exact.  Each class is listed in NOTES.md; the classes marked (crash) make
-the unchanged library crash or corrupt memory when the accepted operation is then computed. -/
+that this description is exact.  Each class is listed in NOTES.md.  Every accepted row — lax or not — is
+computed by the harness; none of them crashes the library any more (findings F2 and F4 are repaired). -/
 
 /-- everything the constructors of arithmetic operations require, except "integer or real" -/
 def boolArith (a b c : AKind) (sd : Bool) : Bool := sd && sameType a b c && c.range == .bool && c.lab == .mt
@@ -417,7 +437,8 @@ def laxA : OpKind → AKind → AKind → AKind → Bool → Bool → Bool
   -- L3: the relation of an image operation is not required to have Boolean range
   | .PRE_IMAGE, a, b, c, sd, sac | .POST_IMAGE, a, b, c, sd, sac =>
     sd && imageReq a { b with range := .bool } c && b.range != .bool
-  -- L3 + L4 (crash): reachability with the result in another forest than the first operand
+  -- L3 + L4: reachability with the result in another forest than the first operand (ops_builtin.h demands the
+  -- same forest; the code copies the initial set into the result forest and works there)
   | .REACHABLE_SATUR_FWD, a, b, c, sd, sac | .REACHABLE_SATUR_BWD, a, b, c, sd, sac
   | .REACHABLE_TRAD_NOFS_FWD, a, b, c, sd, sac | .REACHABLE_TRAD_NOFS_BWD, a, b, c, sd, sac =>
     sd && imageReq a { b with range := .bool } c && (b.range != .bool || !sac)
@@ -441,25 +462,27 @@ def lax (op : OpKind) (ka kb kc : ForestKind) (sameDom : Bool) : Bool :=
 /-! ### the finite table -/
 
 /-- the facts checked on every row (`p` = precheck, `cp` = compatible, `lx` = lax, `ct` = compatible if the
-    domains were the same, `two` = the operation involves at least two forests):
+    domains were the same, `two` = the operation involves at least two forests, `sd` = one domain):
     g1  exactness of `lax`: lax ⇔ incompatible and accepted   (hence: accepted and not lax ⇒ compatible;
         incompatible and not lax ⇒ rejected)
     g2  completeness: every documented-compatible call is accepted
-    g3  a crash in a constructor occurs only in REACHABLE_TRAD_NOFS and only on incompatible calls
     g4  DOMAIN_MISMATCH is only reported when the domains differ
     g5  a call whose ONLY defect is the domain is reported as DOMAIN_MISMATCH
-    g6  the constructors raise no other code than DOMAIN_MISMATCH / TYPE_MISMATCH / NOT_IMPLEMENTED -/
-def goodCore (p : Option ErrCode) (cp lx ct nofs two sd : Bool) : Bool :=
+    g6  the constructors raise no other code than DOMAIN_MISMATCH / TYPE_MISMATCH / NOT_IMPLEMENTED
+    (g3, "a constructor crashes only in REACHABLE_TRAD_NOFS", is gone with finding F1: no outcome of the
+    table is a crash any more.) -/
+def goodCore (p : Option ErrCode) (cp lx ct two sd : Bool) : Bool :=
   match p with
   | none => (lx == !cp) && !(two && !sd && ct)
   | some .DOMAIN_MISMATCH => !lx && !cp && !sd
   | some .TYPE_MISMATCH | some .NOT_IMPLEMENTED => !lx && !cp && !(two && !sd && ct)
-  | some .CRASH => !lx && !cp && nofs && !(two && !sd && ct)
   | some _ => false
 
-def goodA (op : OpKind) (a b c : AKind) (sd sac : Bool) : Bool :=
-  goodCore (precheckA op a b c sd) (compatibleA op a b c sd sac) (laxA op a b c sd sac)
-    (compatibleA op a b c true sac) op.isNoFS (decide (2 ≤ op.forests)) sd
+def goodA (op : OpKind) (a b c : AKind) (dp : Doms) (sac : Bool) : Bool :=
+  goodCore (precheckA op a b c dp) (compatibleA op a b c dp.allSame sac) (laxA op a b c dp.allSame sac)
+    (compatibleA op a b c true sac) (decide (2 ≤ op.forests)) dp.allSame
+
+def allDoms : List Doms := [.same, .firstOnly, .split]
 
 def allBool : List Bool := [false, true]
 
@@ -516,15 +539,15 @@ def sL (op : OpKind) : List Bool := if op.isReach then allBool else [false]
 
 /-- the whole table of one (representative) operation: first operand over the 10 kinds, second operand
     over the 10 kinds (binary operations), result over the 10 kinds or the 20 kinds with the "fully reduced"
-    flag (operations that look at it), same / different domain, result in the first operand's forest or
-    not (reachability) -/
+    flag (operations that look at it), the three spreads over domains, result in the first operand's forest
+    or not (reachability) -/
 def famGood (op : OpKind) : Bool :=
-  allBK.all fun a => (bL op).all fun b => (cL op).all fun c => allBool.all fun sd => (sL op).all fun sac =>
-    goodA op a b c sd sac
+  allBK.all fun a => (bL op).all fun b => (cL op).all fun c => allDoms.all fun dp => (sL op).all fun sac =>
+    goodA op a b c dp sac
 
 /-- a row depends only on its normalised parts, and only on the representative of the operation -/
-theorem goodA_norm (op : OpKind) (a b c : AKind) (sd sac : Bool) :
-    goodA op a b c sd sac = goodA op.rep a.nf (nb op.rep b) (nc op.rep c) sd (ns op.rep sac) := by
+theorem goodA_norm (op : OpKind) (a b c : AKind) (dp : Doms) (sac : Bool) :
+    goodA op a b c dp sac = goodA op.rep a.nf (nb op.rep b) (nc op.rep c) dp (ns op.rep sac) := by
   cases op <;> rfl
 
 theorem nf_mem_allBK (k : AKind) (h : k.legal = true) : k.nf ∈ allBK := by
@@ -554,17 +577,17 @@ theorem ns_mem (op : OpKind) (sac : Bool) : ns op sac ∈ sL op := by
   · cases sac <;> decide
   · exact List.mem_singleton.2 rfl
 
-theorem famGood_spec {op : OpKind} (h : famGood op = true) {a b c : AKind} {sd sac : Bool}
-    (ha : a ∈ allBK) (hb : b ∈ bL op) (hc : c ∈ cL op) (hs : sac ∈ sL op) : goodA op a b c sd sac = true := by
+theorem famGood_spec {op : OpKind} (h : famGood op = true) {a b c : AKind} {dp : Doms} {sac : Bool}
+    (ha : a ∈ allBK) (hb : b ∈ bL op) (hc : c ∈ cL op) (hs : sac ∈ sL op) : goodA op a b c dp sac = true := by
   unfold famGood at h
   have h1 := List.all_eq_true.1 h a ha
   have h2 := List.all_eq_true.1 h1 b hb
   have h3 := List.all_eq_true.1 h2 c hc
-  have h4 := List.all_eq_true.1 h3 sd (by cases sd <;> decide)
+  have h4 := List.all_eq_true.1 h3 dp (by cases dp <;> decide)
   exact List.all_eq_true.1 h4 sac hs
 
 /-! The table itself, decided by evaluation in the kernel, one chunk per representative operation
-    (≈ 45 000 rows in all). -/
+    (≈ 67 600 rows in all). -/
 theorem famGood_UNION : famGood .UNION = true := by decide +kernel
 theorem famGood_CROSS : famGood .CROSS = true := by decide +kernel
 theorem famGood_PLUS : famGood .PLUS = true := by decide +kernel
@@ -610,7 +633,7 @@ theorem famGood_rep : (op : OpKind) → famGood op.rep = true
 
 /-- every row over legal kinds is good -/
 theorem goodA_all (op : OpKind) (a b c : AKind) (ha : a.legal = true) (hb : b.legal = true)
-    (hc : c.legal = true) (sd sac : Bool) : goodA op a b c sd sac = true := by
+    (hc : c.legal = true) (dp : Doms) (sac : Bool) : goodA op a b c dp sac = true := by
   rw [goodA_norm]
   exact famGood_spec (famGood_rep op) (nf_mem_allBK a ha) (nb_mem _ b hb) (nc_mem _ c hc) (ns_mem _ sac)
 
